@@ -124,7 +124,7 @@ class FnWorld:
         idx = 0
         star = False
         for p in d["params"]:
-            nm = f"n{p['name']}"
+            nm = self.ident(p["name"])
             names.append((nm, p))
             tname = f"T_{mid}_{p['name']}"
             glb[tname] = (self.ew or self.w).ty(p["ty"])
@@ -233,6 +233,17 @@ class FnWorld:
             RANK["fn"] = None
             tmod.MultiTypeMap.resolve = orig_resolve
 
+    # parameter names the generated entry point also uses for its own variables and helpers: a user's parameter may
+    # be called any of these
+    # (ARG1.. / MISSING / KWARGS / TARGS / OVLD are hard-wired in the generated code: listed finding D46, not
+    # generated here)
+    ODD_NAMES = {0: "method", 1: "INJECT", 3: "cls", 4: "subtler_type", 10: "type", 11: "map"}
+
+    def ident(self, n):
+        if self.sc.get("odd_names"):
+            return self.ODD_NAMES.get(n, f"n{n}")
+        return f"n{n}"
+
     def canon_key(self, key):
         """the resolved key as the generated entry point would key the same arguments: at a position the entry point
         keys by type(x), a component type[X] (what subtler_type gives for a class-valued argument) stands for
@@ -306,7 +317,7 @@ class FnWorld:
                     out.append({"o": ["ok"]})
                 else:
                     pos = [self.vals[i] for i in op[1]]
-                    kw = {f"n{n}": self.vals[i] for n, i in op[2]}
+                    kw = {self.ident(n): self.vals[i] for n, i in op[2]}
                     f = ov.dispatch
                     if len(out) % 3 == 0:
                         # read-only introspection between calls (inspect.signature, what help() and a
